@@ -95,6 +95,11 @@ fn trial(sess: &mut Session, vis: u64, baseline: &Value) -> (&'static str, Strin
             // keep a runaway allocation from exhausting the machine
             let lim = libc::rlimit { rlim_cur: 4 << 30, rlim_max: 4 << 30 };
             libc::setrlimit(libc::RLIMIT_AS, &lim);
+            // ... and a runaway loop from stalling the enumeration: a trial takes milliseconds
+            // of CPU; 30 s of CPU time (not wall time, so machine load does not matter) means
+            // the damaged bytes sent the reader spinning - neither an answer nor an error
+            let cpu = libc::rlimit { rlim_cur: 30, rlim_max: 40 };
+            libc::setrlimit(libc::RLIMIT_CPU, &cpu);
             let (o, d) = trial_inner(sess, vis, baseline);
             let msg = format!("{o}\n{d}");
             libc::write(fds[1], msg.as_ptr().cast(), msg.len());
@@ -122,6 +127,11 @@ fn trial(sess: &mut Session, vis: u64, baseline: &Value) -> (&'static str, Strin
             "err" => ("err", d),
             "panic" => ("panic", d),
             "diff" => ("diff", d),
+            _ if libc::WIFSIGNALED(status)
+                && (libc::WTERMSIG(status) == libc::SIGXCPU || libc::WTERMSIG(status) == libc::SIGKILL) =>
+            {
+                ("hang", "the trial exceeded 30 s of CPU time".to_string())
+            }
             _ => ("abort", format!("status {status}")),
         }
     }
